@@ -14,7 +14,7 @@
 (*                     the delegating method of impl Tr for Impl<T>        *)
 (***************************************************************************)
 EXTENDS TLC, Naturals, FiniteSets, Sequences, SequencesExt, Json, IOUtils
-CONSTANT DumpCases
+CONSTANTS DumpCases, Extras
 R == INSTANCE Req
 
 Places == {"fn", "param", "modfn", "implfn", "traitmethod"}
@@ -24,7 +24,9 @@ Places == {"fn", "param", "modfn", "implfn", "traitmethod"}
 Kinds == {"doc", "lint", "cfgon", "cfgoff", "tool", "inert", "cfgattr", "cfgonoff", "cfgattroff"}
 \* pat: the pattern of the parameter that carries the attribute (place "param"): a plain identifier, `_`, or a destructuring pattern
 Pats == {"ident", "wild", "destr"}
-Inputs == { i \in [place : Places, kind : Kinds, async : BOOLEAN, nodeps : BOOLEAN, pat : Pats] :
+\* extra: an unrelated lint attribute (`#[allow(dead_code)]`) written before / after the marker on the same item: where the marker
+\* goes must not depend on its position in the attribute list (thorough tier)
+Inputs == { i \in [place : Places, kind : Kinds, async : BOOLEAN, nodeps : BOOLEAN, pat : Pats, extra : Extras] :
             /\ (i.place # "param" => i.pat = "ident")
             /\ (i.place = "param" => i.kind \in {"lint", "cfgon"})
             /\ (i.place = "traitmethod" => i.kind \in {"doc", "lint", "cfgon", "cfgoff", "inert", "cfgattr", "cfgonoff", "cfgattroff"})
